@@ -2,6 +2,7 @@ import Driver.Util
 import ZvbiModel.Rawdec.Model
 import ZvbiModel.Rawdec.SliceModel
 import ZvbiModel.Rawdec.Spec
+import ZvbiModel.Rawdec.FromSvc
 /-!
 # Model driver for component `rawdec` (C04) - same line protocol as harness/rawdec_harness.c
 
@@ -215,8 +216,16 @@ def step (d : DState) (ws : List String) : DState × String :=
           else if bytes.length ≠ spl * bppOf fmt then (d, "rej size")
           else (d, doSlice variant fmt rate spl ri tho bytes.toArray)
     | _, _, _ => (d, "rej parse")
+  | ["fromsvc", a, b] =>
+    match (if a.startsWith "-" then none else parseNat a), (if b.startsWith "-" then none else parseNat b) with
+    | some fam, some sv =>
+      if fam > 3 ∨ sv > 0xFFFFFFFF then (d, "rej parse") else
+      let (rsv, sp, mx, _) := fromServices Zvbi.Generated.RawdecFromSvc.fsEndFixed fam sv
+      let b01 := fun (x : Bool) => if x then 1 else 0
+      (d, s!"ok {hex rsv} sc={sp.scanning} fmt={sp.fmt} rate={sp.rate} bpl={sp.bpl} off={sp.offset} s0={sp.start0} c0={sp.count0} s1={sp.start1} c1={sp.count1} il={b01 sp.interlaced} sy={b01 sp.synchronous} max={mx}")
+    | _, _ => (d, "rej parse")
   | w :: _ =>
-    if ["par", "add", "remove", "reset", "expect", "decode", "frame", "render", "slice", "table"].contains w
+    if ["par", "add", "remove", "reset", "expect", "decode", "frame", "render", "slice", "table", "fromsvc"].contains w
     then (d, "rej parse") else (d, "rej op")
   | [] => (d, "rej op")
 
